@@ -55,10 +55,25 @@ def gen_config(d: Draw, prop):
         cfg['rheology'] = d.pick([None, 'maxwell', 'andrade'])
     if cfg['host'] == 'giant':
         cfg['host_tides'] = d.chance(1, 3)
+    if d.chance(1, 4):
+        # a second tidal body shares the orbit (updates of the two bodies interleave)
+        cfg['n_bodies'] = 2
+        cfg['sync2'] = d.chance(1, 2)
     return cfg
 
 
 def gen_op(d: Draw, cfg, prop):
+    if cfg.get('n_bodies', 1) >= 2 and d.chance(1, 3):
+        # an update of the companion body: it is a simple CPL world with its own spin-sync flag
+        cfg2 = dict(cfg, model='cpl', sync=cfg.get('sync2', True))
+        op = _gen_op(d, cfg2, prop)
+        if op['op'] != 'o.time':
+            op['target'] = 1
+        return op
+    return _gen_op(d, cfg, prop)
+
+
+def _gen_op(d: Draw, cfg, prop):
     n = cfg['N']
     model = cfg['model']
     kinds = [('w.set_state', 5), ('o.set_state', 3), ('o.setter', 4), ('w.prop.orbit', 4)]
@@ -147,6 +162,8 @@ def model_apply(state, op, n_layers=None):
     """The reference model: last applied value of every independent variable (and how the separation / spin were given)."""
     kind = op['op']
     a = op.get('args', {})
+    if kind != 'o.time':
+        state = state.setdefault('body%d' % op.get('target', 0), {})
     if kind in ('w.set_state', 'o.set_state'):
         for key, v in a.items():
             if key in SEP_KINDS:
@@ -182,28 +199,30 @@ def model_apply(state, op, n_layers=None):
 def place_twin(twin, state):
     """Put a freshly built system directly into the model's state: one canonical batched call per object."""
     n = abs(twin.cfg.get('N', 0))
-    for li, v in sorted(state.get('T', {}).items()):
-        layer = twin.all_layers[li % len(twin.all_layers)]
-        layer.temperature = twin.value(v, n)
-    kw = {}
-    if 'fixed_q' in state:
-        kw['fixed_q'] = twin.value(state['fixed_q'], n)
-    if 'fixed_dt' in state:
-        kw['fixed_dt'] = twin.value(state['fixed_dt'], n)
-    if kw:
-        twin.world.tides.set_state(**kw)
     if 'time' in state:
         twin.orbit.time = twin.value(state['time'], n)
-    kw = {}
-    if 'sep' in state:
-        kw[state['sep'][0]] = twin.value(state['sep'][1], n)
-    if 'spin' in state:
-        kw[state['spin'][0]] = twin.value(state['spin'][1], n)
-    for key in ('eccentricity', 'obliquity'):
-        if key in state:
-            kw[key] = twin.value(state[key], n)
-    if kw:
-        twin.world.set_state(**kw)
+    for wi, world in enumerate(twin.worlds):
+        st = state.get('body%d' % wi, {})
+        for li, v in sorted(st.get('T', {}).items()):
+            layer = twin.all_layers[li % len(twin.all_layers)]
+            layer.temperature = twin.value(v, n)
+        kw = {}
+        if 'fixed_q' in st:
+            kw['fixed_q'] = twin.value(st['fixed_q'], n)
+        if 'fixed_dt' in st:
+            kw['fixed_dt'] = twin.value(st['fixed_dt'], n)
+        if kw:
+            world.tides.set_state(**kw)
+        kw = {}
+        if 'sep' in st:
+            kw[st['sep'][0]] = twin.value(st['sep'][1], n)
+        if 'spin' in st:
+            kw[st['spin'][0]] = twin.value(st['spin'][1], n)
+        for key in ('eccentricity', 'obliquity'):
+            if key in st:
+                kw[key] = twin.value(st[key], n)
+        if kw:
+            world.set_state(**kw)
 
 
 class OopStateEngine(EngineBase):
@@ -280,9 +299,11 @@ class OopStateEngine(EngineBase):
             yield new
         cfg = plan['config']
         for key, plain in (('host', 'star'), ('host_tides', False), ('obliq', False), ('trunc', 2), ('sync', False),
-                           ('lmax', 2), ('rheology', None)):
+                           ('lmax', 2), ('rheology', None), ('n_bodies', 1)):
             if key in cfg and cfg[key] != plain:
                 if key == 'sync' and any(_has_spin(o) for o in plan['ops']):
+                    continue
+                if key == 'n_bodies' and any(o.get('target') for o in plan['ops']):
                     continue
                 new = copy.deepcopy(plan)
                 new['config'][key] = plain
@@ -419,7 +440,11 @@ class OopStateEngine(EngineBase):
 
     # ------------------------------------------------------------------------------------------
     def _kepler_oracle(self, s, i, label, viol, bump, ride=True):
-        w, o = s.world, s.orbit
+        for w in s.worlds:
+            self._kepler_one(s, w, i, label, viol, bump, ride)
+
+    def _kepler_one(self, s, w, i, label, viol, bump, ride=True):
+        o = s.orbit
         a, n, p = w.semi_major_axis, w.orbital_frequency, w.orbital_period
         if a is None and n is None and p is None:
             return
@@ -444,13 +469,13 @@ class OopStateEngine(EngineBase):
                 viol('kepler', 'getter-mismatch', 'after step %d %s world.%s and the orbit getter disagree' % (i, label, name))
                 return
         if ride:
-            self._ride_conversions(a_, n_, p_, s, i, label, viol, bump)
+            self._ride_conversions(a_, n_, p_, s, w, i, label, viol, bump)
 
-    def _ride_conversions(self, a_, n_, p_, s, i, label, viol, bump):
+    def _ride_conversions(self, a_, n_, p_, s, w, i, label, viol, bump):
         """Sampling only (declared as such): push the reached values through every conversion pair / compiled twin."""
         from TidalPy.utilities.conversions import conversions as cv
         from TidalPy.utilities.conversions import conversions_x as cx
-        M, m = s.host.mass, s.world.mass
+        M, m = s.host.mass, w.mass
 
         def ulps(x, y):
             x, y = np.asarray(x, dtype=float), np.asarray(y, dtype=float)
@@ -521,6 +546,9 @@ class OopStateEngine(EngineBase):
             return
         heat = out.get('tidal_heating')
         d = system.compare(w.tidal_heating_global, heat, rtol=1e-9)
+        for name, mine, theirs in (('dUdM', w.dUdM, out.get('dUdM')), ('dUdw', w.dUdw, out.get('dUdw')), ('dUdO', w.dUdO, out.get('dUdO')),
+                                   ('k2', (w.tides.global_love_by_orderl or {}).get(2), (out.get('love_number_by_orderl') or {}).get(2))):
+            d += [('/' + name, x[1]) for x in system.compare(mine, theirs, rtol=1e-9)]
         if ok is None:
             # calibration against the *current* state is only valid if history == twin, which was just checked
             self._functional_ok[key] = not d
@@ -529,8 +557,8 @@ class OopStateEngine(EngineBase):
             return
         bump('probe:functional_oracle_checks')
         if d:
-            viol('functional-api', 'heating-differs', 'after step %d %s tidal_heating_global %s differs from quick_tidal_dissipation %s'
-                 % (i, label, system._brief(w.tidal_heating_global), system._brief(heat)))
+            viol('functional-api', 'functional-api-differs', 'after step %d %s the objects disagree with quick_tidal_dissipation evaluated at the '
+                 'same state: %s' % (i, label, '; '.join('%s %s' % (p_ or '/tidal_heating', m_) for p_, m_ in d[:3])))
 
     @staticmethod
     def _call_quick(fn, kw, w, cfg):
@@ -597,7 +625,9 @@ def _has_spin(op):
 def _abstract(state):
     out = {}
     for k, v in state.items():
-        if k == 'T':
+        if k.startswith('body'):
+            out[k] = _abstract(v)
+        elif k == 'T':
             out[k] = {str(i): (x['v'], x['arr']) for i, x in v.items()}
         elif isinstance(v, tuple):
             out[k] = (v[0], v[1]['v'], v[1]['arr'])
@@ -631,6 +661,8 @@ def _op_label(op):
         return repr(v)
     args = ', '.join('%s=%s' % (k, val(v)) for k, v in op.get('args', {}).items())
     name = op.get('name')
+    if op.get('target'):
+        args = 'body%d; %s' % (op['target'], args)
     if op['op'] == 'layer.temperature':
         return 'layer[%d].%s(%s)' % (op['layer'], name, args)
     return '%s%s(%s)' % (op['op'], '.' + name if name else '', args)
